@@ -1169,6 +1169,9 @@ theorem copyOp_opened {fs : FS} {v : Variant} {sf : String} {sp : Path} {df : St
   by_cases hflags : ((link && rename) || (link && soft) || (rename && soft)) = true
   · simp [hflags] at h
   · simp only [hflags] at h
+    by_cases hself : (decide (sf = df) && (link || rename || soft) && under sp dp) = true
+    · simp [hself] at h
+    simp only [hself] at h
     cases hsf : getFile fs sf with
     | none => simp [hsf] at h
     | some hsrc =>
@@ -1347,10 +1350,12 @@ theorem copyOp_cases {fs : FS} {v : Variant} {sf : String} {sp : Path} {df : Str
     · exact Or.inl (Prod.mk.inj h).1.symm
     · split at h
       · exact Or.inl (Prod.mk.inj h).1.symm
-      · simp only at h
-        split at h
-        · exact Or.inr (Or.inl (Prod.mk.inj h).1.symm)
-        · exact Or.inr (Or.inr h)
+      · split at h
+        · exact Or.inl (Prod.mk.inj h).1.symm
+        · simp only at h
+          split at h
+          · exact Or.inr (Or.inl (Prod.mk.inj h).1.symm)
+          · exact Or.inr (Or.inr h)
 
 theorem afterOpen_only (fs : FS) (df : String) (ow : Bool) : OnlyFile df fs (afterOpen fs df ow) := by
   unfold afterOpen
@@ -3541,7 +3546,7 @@ theorem copy_overwrite_eq {fs : FS} {v : Variant} {sf : String} {sp : Path} {df 
   | some hh =>
     unfold copyOp afterOpen
     simp only [hflags, Bool.false_eq_true, if_false, getFile_setFile, hne, hne', hg, if_true, Option.isNone_some,
-      Bool.or_true, Bool.or_false, decide_false, Bool.and_false]
+      Bool.or_true, Bool.or_false, decide_false, Bool.and_false, Bool.false_and]
 
 /-! ### `uri_slash`: the C15 clause as a corollary of `Cooler.C19.uri_slash` (same definition) -/
 
@@ -3572,5 +3577,238 @@ example : parseCoolerUriC ['f', ':', ':', '/', 'a', '/', 'b'] = parseCoolerUriC 
   (uri_slash ['f'] ['a', '/', 'b'] (by decide) (by decide) (by decide)).1
 example : parseCoolerUriC ['f'] = .ok (['f'], []) ∧ parseCoolerUriC ['a', ':', ':', 'b', ':', ':', 'c'] = .error .value :=
   ⟨by rfl, by rfl⟩
+
+
+/-! ### `copy_reads_equal` for `mv` through links: the exact side condition -/
+
+/-- one resolution step that refuses to look at anything stored under `L` in file `g0` -/
+def stepAv (fs : FS) (g0 : String) (L : Path) (follow : String → Path → Option Loc) (acc : Option Loc)
+    (x : String) : Option Loc :=
+  match acc with
+  | none => none
+  | some (f, P) => if (decide (f = g0) && under L (P ++ [x])) = true then none else stepWith fs follow (some (f, P)) x
+
+/-- `resolveN` restricted to resolutions that never touch the region `L` of file `g0` (the link `mv`
+is about to remove): `some l` means "the path names `l` and does not pass through that link" -/
+def resolveAvN (fs : FS) (g0 : String) (L : Path) : Nat → String → Path → Option Loc
+  | 0, f, p => p.foldl (stepAv fs g0 L (fun _ _ => none)) (start fs f)
+  | n + 1, f, p => p.foldl (stepAv fs g0 L (resolveAvN fs g0 L n)) (start fs f)
+
+theorem foldl_stepAv_none (fs : FS) (g0 : String) (L : Path) (F : String → Path → Option Loc) (p : Path) :
+    p.foldl (stepAv fs g0 L F) none = none := by
+  induction p with
+  | nil => rfl
+  | cons x p ih => simpa [List.foldl_cons, stepAv] using ih
+
+/-- a resolution that avoids the region survives any change confined to the region -/
+theorem resolveAv_transfer {fs fs' : FS} {g0 : String} {L : Path}
+    (hfiles : ∀ g, (getFile fs g).isSome → (getFile fs' g).isSome)
+    (hoff : ∀ g k e, ¬ (g = g0 ∧ under L k = true) → lookupE fs g k = some e → lookupE fs' g k = some e) :
+    ∀ (n : Nat) (f : String) (p : Path) (l : Loc), resolveAvN fs g0 L n f p = some l → resolveN fs' n f p = some l := by
+  have key : ∀ (F G : String → Path → Option Loc), (∀ g t l, F g t = some l → G g t = some l) →
+      ∀ (p : Path) (acc : Option Loc) (l : Loc),
+        p.foldl (stepAv fs g0 L F) acc = some l → p.foldl (stepWith fs' G) acc = some l := by
+    intro F G hFG p
+    induction p with
+    | nil => intro acc l h; exact h
+    | cons x p ih =>
+      intro acc l h
+      simp only [List.foldl_cons] at h ⊢
+      cases hs : stepAv fs g0 L F acc x with
+      | none => rw [hs, foldl_stepAv_none] at h; simp at h
+      | some l' =>
+        rw [hs] at h
+        have : stepWith fs' G acc x = some l' := by
+          unfold stepAv at hs
+          cases acc with
+          | none => simp at hs
+          | some a0 =>
+            obtain ⟨f0, P0⟩ := a0
+            simp only at hs
+            by_cases hc : (decide (f0 = g0) && under L (P0 ++ [x])) = true
+            · simp [hc] at hs
+            · simp only [hc] at hs
+              have hnot : ¬ (f0 = g0 ∧ under L (P0 ++ [x]) = true) := by
+                intro ⟨h1, h2⟩; apply hc; simp [h1, h2]
+              unfold stepWith at hs ⊢
+              simp only at hs ⊢
+              cases hl : lookupE fs f0 (P0 ++ [x]) with
+              | none => simp [hl] at hs
+              | some e =>
+                rw [hoff _ _ _ hnot hl]
+                rw [hl] at hs
+                cases e with
+                | group o a => exact hs
+                | dataset c => exact hs
+                | soft t => exact hFG _ _ _ hs
+                | ext g t => exact hFG _ _ _ hs
+        rw [this]; exact ih _ _ h
+  have hstart : ∀ f l, start fs f = some l → start fs' f = some l := by
+    intro f l hs
+    unfold start at hs ⊢
+    cases hg : getFile fs f with
+    | none => simp [hg] at hs
+    | some hh =>
+      have := hfiles f (by simp [hg])
+      cases hg' : getFile fs' f with
+      | none => simp [hg'] at this
+      | some _ => simpa [hg] using hs
+  intro n
+  induction n with
+  | zero =>
+    intro f p l h
+    rw [resolveN_eq]
+    simp only [resolveAvN] at h
+    cases hst : start fs f with
+    | none => rw [hst, foldl_stepAv_none] at h; simp at h
+    | some l0 =>
+      rw [hstart f l0 hst]; rw [hst] at h
+      exact key _ _ (by intro g t l' hh; simp at hh) p _ l h
+  | succ n ih =>
+    intro f p l h
+    rw [resolveN_eq]
+    simp only [resolveAvN] at h
+    cases hst : start fs f with
+    | none => rw [hst, foldl_stepAv_none] at h; simp at h
+    | some l0 =>
+      rw [hstart f l0 hst]; rw [hst] at h
+      exact key _ _ (fun g t l' hh => ih g t l' hh) p _ l h
+
+/-- **copy_reads_equal for `mv` inside one file, any links** (source path through soft links, source
+itself a soft link or a hard-linked region, destination parent through soft links).  Let `L` be the
+canonical location of the source LINK (`Ps ++ [y]`: resolved parent of `sp`, last name of `sp`) —
+what `del src[src_group]` removes.  Side condition: the destination's parent path resolves WITHOUT
+passing through `L` (`resolveAvN`), to `P`, and the new link `P ++ [x]` does not lie under `L`.
+Then the destination reads what the source read.  Outside the side condition the conclusion can
+fail: `mv_through_source_counterexample`. -/
+theorem mv_reads_equal {fs : FS} (hw : WF fs) {v : Variant} {sf : String} {sp dp : Path} {ow : Bool} {fs' : FS}
+    (h : mv fs v sf sp sf dp ow = (fs', .ok)) {c : Nat} (hr : Reads fs sf sp c)
+    {Ps P : Path} {y x : String}
+    (hPs : resolve fs sf sp.dropLast = some (sf, Ps)) (hy : sp.getLast? = some y)
+    (hav : resolveAvN fs sf (Ps ++ [y]) LINKFUEL sf dp.dropLast = some (sf, P)) (hx : dp.getLast? = some x)
+    (hDL : under (Ps ++ [y]) (P ++ [x]) = false) : Reads fs' sf dp c := by
+  unfold mv at h
+  obtain ⟨hfile, hnw, hb⟩ := copyOp_opened h
+  simp only [if_true, Bool.or_true] at hb
+  have hfs1 : afterOpen fs sf ow = fs := by
+    unfold afterOpen
+    have : ¬ (((getFile fs sf).isNone || ow) = true) := fun hc => hnw ⟨hc, rfl⟩
+    simp [this]
+  rw [hfs1] at hb
+  obtain ⟨S, hs, fs2, D, hres, hg, _, hp, hd, hu, hun⟩ := hardLinkSame_ok hb
+  simp only [if_true] at hun
+  obtain ⟨h1, P', x', hdp, hsub, hresP, hlk, _, _, hdest, habs⟩ := placeAt_facts hw hp
+  -- names
+  have hx' : x' = x := by
+    have : dp.getLast? = some x' := by rw [hdp]; simp
+    rw [hx] at this; exact (Option.some.inj this).symm
+  subst hx'
+  have hP2 : resolveN fs2 LINKFUEL sf dp.dropLast = some (sf, P) :=
+    resolveAv_transfer hsub.1 (fun g k e _ hk => hsub.2 g k e hk) _ _ _ _ hav
+  have hP' : P' = P := (Prod.mk.inj (hresP.det ⟨LINKFUEL, hP2⟩)).2
+  subst hP'
+  obtain ⟨y', Ps', hh, hsp, hresS, hg2, rfl⟩ := unlink_ok hun
+  have hy' : y' = y := by
+    have : sp.getLast? = some y' := by rw [hsp]; simp
+    rw [hy] at this; exact (Option.some.inj this).symm
+  subst hy'
+  have hPs2 : resolveN fs2 LINKFUEL sf sp.dropLast = some (sf, Ps) :=
+    resolveN_mono hsub _ _ (Nat.le_refl _) _ _ _ hPs
+  have hPs' : Ps' = Ps := (Prod.mk.inj (Resolves.det ⟨LINKFUEL, hresS⟩ ⟨LINKFUEL, hPs2⟩)).2
+  subst hPs'
+  -- lookups in the final file system
+  have hfin : ∀ k, lookupE (setFile fs2 sf ⟨removeUnder (Ps' ++ [y']) hh.entries, hh.next⟩) sf k =
+      if under (Ps' ++ [y']) k then none else lookupE fs2 sf k := by
+    intro k
+    rw [lookupE_setFile_same, lookupK_removeUnder]
+    unfold lookupE; rw [hg2]
+  -- the parent still resolves
+  have hPf : resolveN (setFile fs2 sf ⟨removeUnder (Ps' ++ [y']) hh.entries, hh.next⟩) LINKFUEL sf dp.dropLast =
+      some (sf, P') := by
+    refine resolveAv_transfer ?_ ?_ _ _ _ _ hav
+    · intro g hgs
+      have := hsub.1 g hgs
+      rw [getFile_setFile]; by_cases e : sf = g <;> simp [e, this]
+    · intro g k e hnot hk
+      have hk2 := hsub.2 g k e hk
+      by_cases e' : g = sf
+      · subst e'
+        rw [hfin]
+        have : under (Ps' ++ [y']) k = false := by
+          cases hc : under (Ps' ++ [y']) k with
+          | false => rfl
+          | true => exact absurd ⟨rfl, hc⟩ hnot
+        simp [this, hk2]
+      · rw [lookupE_setFile_other _ _ _ _ _ e']; exact hk2
+  -- the new link is not an ancestor of the removed one either: it did not exist
+  obtain ⟨ePs, hePs, _⟩ := resolveN_present hw _ _ _ _ _ hPs
+  have hnot : under (P' ++ [x']) (Ps' ++ [y']) = false := by
+    cases hc : under (P' ++ [x']) (Ps' ++ [y']) with
+    | false => rfl
+    | true =>
+      exfalso
+      by_cases he : P' ++ [x'] = Ps' ++ [y']
+      · rw [he, under_refl] at hDL; simp at hDL
+      · have hpre : under (P' ++ [x']) Ps' = true := prefix_of_snoc hc he
+        by_cases he2 : P' ++ [x'] = Ps'
+        · rw [he2, hePs] at habs; simp at habs
+        · have hgf : ∃ hsf, getFile fs sf = some hsf := ⟨hs, hg⟩
+          obtain ⟨hsf, hgsf⟩ := hgf
+          have hePs' : lookupK hsf.entries Ps' = some ePs := by
+            unfold lookupE at hePs; rw [hgsf] at hePs; exact hePs
+          obtain ⟨o, a, hh'⟩ := (hw sf hsf hgsf).2 Ps' ePs hePs' (P' ++ [x']) hpre he2
+          unfold lookupE at habs; rw [hgsf] at habs
+          simp only at habs
+          rw [habs] at hh'; simp at hh'
+  have hoff : ∀ r, under (Ps' ++ [y']) (P' ++ [x'] ++ r) = false := by
+    intro r
+    cases hc : under (Ps' ++ [y']) (P' ++ [x'] ++ r) with
+    | false => rfl
+    | true =>
+      rcases under_of_common hc (under_append (P' ++ [x']) r) with h' | h'
+      · rw [hDL] at h'; simp at h'
+      · rw [hnot] at h'; simp at h'
+  have look : ∀ r, lookupE (setFile fs2 sf ⟨removeUnder (Ps' ++ [y']) hh.entries, hh.next⟩) sf (P' ++ [x'] ++ r) =
+      lookupE fs sf (S ++ r) := by
+    intro r
+    rw [hfin, hoff r, hlk r, lookupK_getRegion]
+    unfold lookupE; rw [hg]; simp
+  obtain ⟨r1, ⟨o2, a2, r2⟩, r3⟩ := reads_at_resolved hr hres
+  obtain ⟨oid, a, he, hf⟩ := coolerEntry_some r1
+  simp only at he r2 r3
+  have e0 := look []
+  simp only [List.append_nil] at e0
+  rw [reads_iff]
+  refine ⟨(sf, P' ++ [x']), ?_, ?_, ⟨o2, a2, ?_⟩, ?_⟩
+  · rw [hdp]
+    exact Resolves.snoc_obj ⟨LINKFUEL, hPf⟩ (e := .group oid a) (by rw [e0, he]) (Or.inl ⟨_, _, rfl⟩)
+  · simp only; rw [e0, he]; simpa [coolerEntry] using hf
+  · simp only; rw [look, r2]
+  · simp only
+    rw [look, r3]
+
+/-- outside the side condition: `/a` holds a soft link `/a/l → /c` and `/t → /a/l` points into it;
+`mv A::/a A::/t/x` succeeds (the collection is hard-linked at `/c/x`, then `/a` is unlinked) but the
+destination URI passes through the moved source and no longer names anything, although `/c/x` reads
+the content.  HDF5 behaves the same: this is the meaning of the operation, not a defect.  (The direct
+spelling `mv A::/a A::/a/l/x` is refused since fix D26.) -/
+theorem mv_through_source_counterexample :
+    let fs := run Variant.current [] [.create "A" ["a"] .a 1, .create "A" ["c"] .a 2,
+      .ln "A" ["c"] "A" ["a", "l"] true false, .ln "A" ["a", "l"] "A" ["t"] true false]
+    let r := mv fs Variant.current "A" ["a"] "A" ["t", "x"] false
+    readCollection fs "A" ["a"] = some 1 ∧ r.2 = .ok ∧ readCollection r.1 "A" ["t", "x"] = none ∧
+      readCollection r.1 "A" ["c", "x"] = some 1 ∧
+      resolveAvN fs "A" ["a"] LINKFUEL "A" ["t"] = none := by
+  decide
+
+/-- inside it, through links: source named through a soft link, destination parent through another -/
+example :
+    let fs := run Variant.current [] [.create "A" ["a", "b"] .a 1, .create "A" ["c"] .a 2,
+      .ln "A" ["a"] "A" ["s"] true false, .ln "A" ["c"] "A" ["t"] true false]
+    let r := mv fs Variant.current "A" ["s", "b"] "A" ["t", "x"] false
+    r.2 = .ok ∧ readCollection r.1 "A" ["t", "x"] = some 1 ∧ isCooler r.1 "A" ["s", "b"] = false ∧
+      resolve fs "A" ["s"] = some ("A", ["a"]) ∧
+      resolveAvN fs "A" ["a", "b"] LINKFUEL "A" ["t"] = some ("A", ["c"]) ∧ under ["a", "b"] ["c", "x"] = false := by
+  decide
 
 end Cooler.C15
